@@ -523,9 +523,6 @@ func c04Triggers(in *c04In, reqHdr http.Header) []string {
 	if in.Fails > 0 && in.Retry && c04NonIdempotent(in) {
 		t = append(t, "retry:rewrite-reapplied")
 	}
-	if rc := c04Lines(in.RHdr)["Connection"]; len(rc) >= 2 && c04LaterConnNames(rc, c04Lines(in.RHdr)) {
-		t = append(t, "response:second-connection-line")
-	}
 	if c04AliasSensitive(in, hadHop) {
 		t = append(t, "request:placeholder-reads-mutated-headers")
 	}
@@ -545,6 +542,9 @@ func c04RepairedClasses(in *c04In, reqHdr http.Header) []string {
 			t = append(t, "request:hop-header-empty-first-value") // F-C04-2
 			break
 		}
+	}
+	if rc := c04Lines(in.RHdr)["Connection"]; len(rc) >= 2 && c04LaterConnNames(rc, c04Lines(in.RHdr)) {
+		t = append(t, "response:second-connection-line") // F-C04-3
 	}
 	return t
 }
@@ -855,7 +855,7 @@ func c04RunWire1(in *c04In) (Result, bool) {
 	sig := "wire:relay"
 	respConn := c04Lines(in.RHdr)["Connection"]
 	if len(respConn) >= 2 && c04LaterConnNames(respConn, c04Lines(in.RHdr)) {
-		sig = "wire:response:second-connection-line"
+		sig = "wire:response:second-connection-line" // class of the repaired F-C04-3 (label only)
 	}
 	if len(in.RAnn) == 0 && len(in.RTrailers) > 0 && in.RBodyLen <= 2048 {
 		// the front response is not chunked yet when the proxy learns about the trailers
